@@ -126,12 +126,72 @@ def shrink_doc(case):
       yield dict(case, xml=_ser(r2))
 
 
-for _p, _u in (("tt", R.NS_TT), ("tts", R.NS_TTS), ("ttp", R.NS_TTP), ("ittp", R.NS_ITTP), ("itts", R.NS_ITTS), ("ebutts", R.NS_EBUTTS)):
-  pass
-
-
 def _ser(root):
   return ET.tostring(root, encoding="unicode")
+
+
+def check_dev(case, acc):
+  """E-dev: the corrupted attribute must behave as if absent, be logged by ttconv.imsc*, and raise nothing"""
+  attr, menu = case["attr"], case["menu"]
+  r_bad = R.canonical(R.interpret(ET.fromstring(case["xml"])))
+  r_base = R.canonical(R.interpret(ET.fromstring(case["base"])))
+  if r_bad != r_base:
+    acc.case("dev:value-is-well-formed-for-the-reference", nontrivial=False)     # not a malformed value: nothing is demanded
+    return
+  try:
+    doc_b, logs_b = core.read_real(case["base"])
+  except Exception as e:  # pylint: disable=broad-except
+    if innermost_ttconv_frame(e.__traceback__) is None:
+      raise
+    acc.case("dev:seed-raises", nontrivial=False)
+    return
+  group = "style" if attr.split(":")[0] in ("tts", "itts", "ebutts") and case["on"] != "tt" and attr != "tts:ruby" else f"{attr}@{case['on']}" if attr == "tts:extent" else attr
+  try:
+    doc_c, logs_c = core.read_real(case["xml"])
+  except Exception as e:  # pylint: disable=broad-except
+    if innermost_ttconv_frame(e.__traceback__) is None:
+      raise
+    acc.violation("C04.dev.exception", f"{exc_disc(e)},attr={group}", case, observed=repr(e)[:300],
+                  expected="the malformed attribute is ignored and logged", note=f"{attr}={_bad_value(case)!r} on {case['on']}")
+    acc.case(f"dev:exception:{type(e).__name__}", nontrivial=True)
+    return
+  ib, _ = core.abstract_model(doc_b, want_raw=False)
+  ic, _ = core.abstract_model(doc_c, want_raw=False)
+  feat = _DEV_GROUP.get(attr, attr if group == "style" else group)
+  if ib != ic:
+    acc.violation("C04.dev.same-as-absent", feat, case, observed=_first_delta(ic, ib), expected="the result for the document without the attribute",
+                  note=f"{attr}={_bad_value(case)!r} ({menu}) on {case['on']} changes the result")
+    acc.case("dev:changes-meaning", nontrivial=True)
+  elif len(logs_c) <= len(logs_b):
+    # (when the value changed the result, the missing report is the same defect and is not reported twice)
+    acc.violation("C04.dev.logged", feat, case, observed=logs_c, expected="a log record from a ttconv.imsc logger",
+                  note=f"{attr}={_bad_value(case)!r} ({menu}) on {case['on']} is ignored silently")
+    acc.case("dev:ignored-silently", nontrivial=True)
+  else:
+    acc.case("dev:ignored+logged", nontrivial=True)
+
+
+_DEV_GROUP = {"begin": "time-expression", "dur": "time-expression", "end": "time-expression",
+              "ttp:frameRate": "tt-parameter", "ttp:frameRateMultiplier": "tt-parameter", "ttp:tickRate": "tt-parameter",
+              "ttp:cellResolution": "tt-parameter", "ittp:aspectRatio": "tt-parameter", "ttp:displayAspectRatio": "tt-parameter",
+              "tts:color": "colour", "tts:backgroundColor": "colour"}
+
+
+def _bad_value(case):
+  root = ET.fromstring(case["xml"])
+  base = ET.fromstring(case["base"])
+  for a, b in zip(root.iter(), base.iter()):
+    for k, v in a.attrib.items():
+      if k not in b.attrib:
+        return v
+  return None
+
+
+def _first_delta(a, b):
+  for k in ("params", "initials", "regions", "body"):
+    if a[k] != b[k]:
+      return {k: a[k], "without": b[k]}
+  return None
 
 
 def _family(name, n_decode, note, timeout=20.0, keyed=False):
@@ -165,5 +225,16 @@ def plan(tier, seed):
                       "x which of them set tts:color x element references (<= 2, incl. missing) x inline"))
   fams.append(_family("F-graph[region]", fam.fam_graph(False, True), "region target with 0-2 nested style children, nested style with a reference"))
   fams.append(_family("F-value", fam.fam_value(), "every value form of every IMSC 1.1 style attribute x 7 carriers (p, span, region, style, initial, set, nested style)"))
+  fams.append(_family("F-spacelang", fam.fam_spacelang(), "xml:space {-,default,preserve} x xml:lang {-,fr,''} on tt, body, p, span"))
+  fams.append(_family("F-mixed", fam.fam_mixed(4 if tier == "quick" else 5), "all child sequences of length <= 4 (5) over {text, white space, span, empty span, br, nested mixed span} in p and in span x {par,seq} x xml:space"))
+  fams.append(_family("F-ruby", fam.fam_ruby(), "ruby patterns (base/text, delimiters, containers, tts:ruby=none) x text/span content x container timing x annotation timing"))
+  fams.append(_family("F-param", fam.fam_param(), "ttp:cellResolution x tts:extent on tt x ittp:activeArea x aspect ratio attributes"))
+  fams.append(_family("F-set", fam.fam_set(), "set on body/div/p/span/br/region x target timing x set begin/dur/end x second set"))
+  fams.append(_family("F-regiontime", fam.fam_regiontime(), "region begin/dur/end x set child begin/dur/end"))
+  fams.append(_family("F-initial", fam.fam_initial(), "pairs of initial properties in one or two initial elements"))
+  n_dev, dec_dev = fam.fam_dev()
+  fams.append(Family("E-dev", n_dev, dec_dev, check_dev, timeout=20.0,
+                     note="every attribute of the seed documents (timing on every kind, parameters, xml:space, style references, tts:ruby, every "
+                          "style attribute on 5 carriers) x malformed menu {empty, unknown keyword, non-numeric, extra component, extra junk, junk suffix, missing unit}"))
   fams.append(_family("F-expr", fam.fam_expr(), "every time expression syntax x boundary values x frameRate x multiplier x tickRate x {begin,end,dur}"))
   return fams
